@@ -15,7 +15,8 @@ EXPLANATION = (
     "exceptional exit is proved to occur before the first write to self, so a failed load/update leaves the context "
     "answering as before; a successful load installs the new config, its record getters and resets the dummy-verify "
     "cache exactly once; update() with an empty source returns before any write; _norm_scheme_option refuses a 'salt' "
-    "option whatever the value's type. Export/import equality is covered by the bounded stand-in."
+    "option whatever the value's type; _CryptConfig._init_options stores each source item in its (scheme, category, key) slot, a later "
+    "item for the same slot replacing the earlier one (update() overlays). Export/import equality is covered by the bounded stand-in."
 )
 ASSUMPTIONS = [
     "_CryptConfig(source) writes only the fresh config object and the fresh subclasses returned by handler.using() (frame of using(): C09)",
